@@ -46,6 +46,9 @@ pub struct Array<T> {
 
 /// Non-shape metadata for an array
 #[derive(Debug, Clone, Default, PartialEq, Eq, Serialize, Deserialize)]
+// Every field is optional, so without this any object would read as metadata,
+// like the marker of an empty box array that comes after a map's keys
+#[serde(deny_unknown_fields)]
 #[repr(C)]
 #[non_exhaustive]
 pub struct ArrayMetaInner {
